@@ -1,4 +1,4 @@
-/- Bridge: the sharing policies regenerated from the source are the ones the C05/C16 theorems are stated for. -/
+/- Bridge: the object-sharing policies regenerated from the source are the ones the C05 theorems are stated for. -/
 import Cel.Gen.Runtime
 namespace Cel.Bridge.Runtime
 open Cel.Runtime
@@ -7,11 +7,8 @@ open Cel.Runtime
 theorem clone_is_deep : Cel.Gen.Runtime.clonePolicy = .deep := rfl
 /-- `CELParser` keeps one lark parser per tree class and parses through the instance's own (D2 fixed) -/
 theorem parser_is_perClass : Cel.Gen.Runtime.parserPolicy = .perClass := rfl
-/-- `Transpiler.evaluate` executes the transpiled statements in a per-call namespace (D4 fixed) -/
-theorem namespace_is_perCall : Cel.Gen.Runtime.namespacePolicy = .perCall := rfl
-/-- the three sharing policies of the current source are the ones of `Config.fixed`; the remaining field
-(`resolve_name` skipping `TypeError`) is free in every theorem -/
-theorem config_policies : Cel.Gen.Runtime.config.clone = .deep ∧ Cel.Gen.Runtime.config.parser = .perClass ∧
-    Cel.Gen.Runtime.config.ns = .perCall := ⟨rfl, rfl, rfl⟩
+/-- the policies of the current source; the exec-namespace policy and the `resolve_name` flag are free in every C05 theorem -/
+theorem config_policies (ns : NamespacePolicy) : (Cel.Gen.Runtime.config ns).clone = .deep ∧ (Cel.Gen.Runtime.config ns).parser = .perClass :=
+  ⟨rfl, rfl⟩
 
 end Cel.Bridge.Runtime
